@@ -53,6 +53,8 @@ def _variant_before(body, preds, bb, idx, local, depth=0, seen=None):
             rv = st["rv"]
             if rv["rv"] == "agg" and rv.get("ak") == "adt" and rv.get("adt") in VIDX:
                 return rv.get("variant")
+            if rv["rv"] == "use" and rv["op"].get("k") == "const" and rv["op"].get("ty") == "bool" and "int" in rv["op"]:
+                return "true" if int(rv["op"]["int"]) else "false"
             if rv["rv"] == "use" and rv["op"].get("k") in ("move", "copy") and not rv["op"]["pl"]["p"]:
                 return _variant_before(body, preds, bb, i, rv["op"]["pl"]["l"], depth + 1, seen)
             return None
@@ -92,12 +94,18 @@ def _switch_pattern(body, k):
         return None
     d = t["discr"]["pl"]["l"]
     src = None
+    assigned = False
     for st in reversed(blk["stmts"]):
         if st["s"] == "assign" and st["pl"]["l"] == d and not st["pl"]["p"]:
+            assigned = True
             if st["rv"]["rv"] == "discr" and not st["rv"]["pl"]["p"]:
                 src = st["rv"]["pl"]
             break
     if src is None:
+        # `if flag` on a bool local that was materialised on the way here (`matches!`, `a && b`): decided per
+        # predecessor by the constant it was given
+        if not assigned and body["locals"][d]["ty"] == "bool":
+            return d, "bool"
         return None
     return src["l"], src.get("ty", "")
 
@@ -140,7 +148,13 @@ def _thread_body(body):
         arms = {int(v): tb for v, tb in t["arms"]}
 
         def target_for(variant):
-            if mode == "try":
+            if variant in ("true", "false"):
+                if dty != "bool":
+                    return None
+                v = 1 if variant == "true" else 0
+            elif dty == "bool":
+                return None
+            elif mode == "try":
                 v = {"Ok": 0, "Some": 0, "Err": 1, "None": 1}.get(variant)
             else:
                 v = {"None": 0, "Some": 1, "Ok": 0, "Err": 1}.get(variant)
